@@ -58,7 +58,7 @@ theorem parseBody_post (b : Buf) (o : Nat) (h : Hdr) (hb : Option PHdrVals) (hok
       rcases hq : parseCSeqVal b o hv.cseq with ⟨n1, e1, f1⟩
       rw [hq] at hr; simp only [Prod.mk.injEq] at hr
       obtain ⟨rfl, rfl, _, rfl⟩ := hr
-      obtain ⟨h1, h2, h3⟩ := parseCSeqVal_post b o hv.cseq ho hq
+      obtain ⟨h1, h2, h3, _⟩ := parseCSeqVal_post b o hv.cseq ho hq
       exact ⟨h1, h2, naOK_mono ok1 h1 h2, naOK_mono ok2 h1 h2, Or.inl h3, ctOK_mono ok4 h1 h2, paOK_mono ok5 h1 h2⟩
     · simp only [hp, Bool.false_eq_true, ↓reduceIte, Prod.mk.injEq] at hr
       obtain ⟨rfl, _, _, rfl⟩ := hr; exact ⟨Nat.le_refl _, ho, ok1, ok2, ok3, ok4, ok5⟩
@@ -298,7 +298,7 @@ theorem hlCont_post (b : Buf) (i : Nat) (h : Hdr) (hb : Option PHdrVals) (hi : i
         · exact h
         · exact absurd h hem
       subst hq1
-      obtain ⟨h1, h2, h3⟩ := parseCSeqVal_post b i hv.cseq hi hq
+      obtain ⟨h1, h2, h3, _⟩ := parseCSeqVal_post b i hv.cseq hi hq
       exact ⟨h2, naOK_mono ok1 h1 h2, naOK_mono ok2 h1 h2, Or.inl h3, ctOK_mono ok4 h1 h2, paOK_mono ok5 h1 h2⟩
     case hCLen =>
       rcases hq : parseCLenVal b i hv.clen with ⟨n1, e1, f1⟩
